@@ -289,15 +289,23 @@ def run_trace(
     stop_on_violation: bool = True,
     want: str | None = None,
 ) -> RunResult:
-    """Replay a concrete trace. No PRNG involved. Stops at the first fatal
-    violation, or as soon as the wanted oracle id has fired."""
+    """Replay a concrete trace. No PRNG involved. Stops as soon as the wanted
+    oracle id has fired (or, with no wanted id, at the first fatal violation)."""
     env.fresh_run_state()
     observe.reset_run_caches()
     ctx = Ctx(world, profile, oracle_factory())
     st = Stepper(ctx)
     for rec in trace:
         st.step(rec.get("actor", "replay"), rec["op"], rec.get("tag"))
-        if stop_on_violation and (st.fatal or (want and any(v.oracle == want for v in st.violations))):
+        if not stop_on_violation:
+            continue
+        if want:
+            # a generated run may record a second oracle's violation in the same
+            # scheduler turn as a fatal one (an estimate issued by the pre-op hook,
+            # then the add itself): replaying for `want` runs on until it fires
+            if any(v.oracle == want for v in st.violations):
+                break
+        elif st.fatal:
             break
     st.finish()
     return _result(ctx, st, None)
